@@ -46,7 +46,11 @@ def spec_app(o):
         return "panic: " + o["panic"]
     if not o["returned"]:
         return "startScanEngine did not return after cancellation"
-    if o["elapsed_ms"] > RETURN_BOUND_MS + o["delay_ms"]:
+    if o.get("scenario") == "cancelled during the exit delay":
+        if o.get("after_cancel_ms", 0) > 1500:
+            return "startScanEngine returned only %d ms after a cancellation that fell inside the exit delay of %d ms" % (
+                o["after_cancel_ms"], o["delay_ms"])
+    elif o["elapsed_ms"] > RETURN_BOUND_MS + o["delay_ms"]:
         return "startScanEngine returned only after %d ms" % o["elapsed_ms"]
     if o["bad_lines"]:
         return "%d output lines are not complete records" % o["bad_lines"]
